@@ -545,6 +545,151 @@ Qed.
 End Inv.
 
 (* ---------------------------------------------------------------------- *)
+(* Queue-level conservation for EVERY label sequence (timeouts and close
+   included), handlers that feed allowed: the key presses popped from
+   input_queue ++ type-ahead store ++ input_queue are the key presses decoded,
+   reports apart, in order.  (What is popped then reaches handlers or waits in
+   the key buffer: acc lemmas of C17_Core.) *)
+
+Lemma pq_done_rpops q : forall c : core, not_run c -> pb c = [] ->
+  nc (rpops (fst (process_q q c))) = nc (rpops c) /\ nc (ikeys (snd (process_q q c))) = nc (ikeys q) /\
+  pb (fst (process_q q c)) = [] /\ not_run (fst (process_q q c)).
+Proof.
+  induction q as [|i q IHq]; intros c NR P0; cbn [C17_Typeahead.process_q]; [auto|].
+  destruct (cph c) eqn:PC; [exfalso; apply NR; exact PC| |auto].
+  destruct (item_is_cpr i) eqn:CI.
+  - destruct i as [k|]; [|discriminate]. cbn [item_is_cpr] in CI.
+    cbn [C17_Typeahead.deliver C17_Typeahead.pop fst snd]. rewrite CI.
+    pose proof (handle_cpr_core_eq k (add_pop k c)) as (X1 & X2 & X3 & X4). cbn [pb add_pop] in X4.
+    rewrite X4, P0. cbn [map app].
+    destruct (IHq (clear_pb (handle_cpr k (add_pop k c)))) as (A & B & C & D).
+    { unfold not_run; cbn [cph clear_pb]. rewrite X3. exact NR. }
+    { reflexivity. }
+    rewrite A, B. cbn [rpops clear_pb]. unfold C17_Typeahead.handle_cpr.
+    split; [|split; [|auto]].
+    + destruct (cpr_lookup (est (add_pop k c))); cbn [rpops add_pop C17_Typeahead.call]; rewrite nc_app, (nc_cpr k CI), app_nil_r; reflexivity.
+    + cbn [ikeys]. change (k :: ikeys q) with ([k] ++ ikeys q). rewrite nc_app, (nc_cpr k CI). reflexivity.
+  - destruct (IHq c NR P0) as (A & B & C & D). cbn [fst snd]. split; [exact A|]. split; [|auto].
+    destruct i as [k|]; cbn [ikeys]; [|exact B].
+    change (k :: ikeys (snd (process_q q c))) with ([k] ++ ikeys (snd (process_q q c))).
+    change (k :: ikeys q) with ([k] ++ ikeys q). rewrite !nc_app, B. reflexivity.
+Qed.
+
+Lemma pq_C q : forall c : core, pb c = [] -> KBr c ->
+  KBr (fst (process_q q c)) /\ pb (fst (process_q q c)) = [] /\
+  nc (rpops (fst (process_q q c))) ++ nc (ikeys (snd (process_q q c))) = nc (rpops c) ++ nc (ikeys q).
+Proof.
+  induction q as [|it q IH]; intros c P0 K; cbn [C17_Typeahead.process_q].
+  - auto.
+  - destruct (cph c) eqn:PH.
+    + cbn [fst snd].
+      set (c0 := pop it c).
+      assert (C0 : core_eq c0 c) by (unfold core_eq, c0; destruct it; cbn; auto).
+      assert (PH0 : cph c0 = CRun res) by (destruct C0 as (_ & _ & X & _); congruence).
+      assert (P00 : pb c0 = []) by (destruct C0 as (_ & _ & _ & X); congruence).
+      assert (K0 : KB c0) by (apply (KBr_congr c c0 (core_eq_sym _ _ C0) K); exact PH0).
+      set (c' := deliver_d it c0).
+      assert (PB : pb c' = []).
+      { destruct (cph c') eqn:PC; [apply (@deliver_d_pb_run E bid res lookup lookup_scan waits eff is_cprh cpr_lookup feeds); exact PC| |];
+          (apply Hnp; [exact PH0|exact P00|exact K0|fold c'; congruence]). }
+      assert (K' : KBr (clear_pb c')).
+      { intros X. cbn [cph clear_pb] in X. exact (deliver_d_KB it c0 K0 X). }
+      destruct (IH (clear_pb c') eq_refl K') as (A & B & C).
+      rewrite PB. cbn [map app]. split; [exact A|]. split; [exact B|].
+      rewrite C. cbn [rpops clear_pb]. unfold c'. rewrite deliver_d_rpops. unfold c0.
+      destruct it as [k|]; cbn [C17_Typeahead.pop rpops add_pop ikeys]; [|reflexivity].
+      change (k :: ikeys q) with ([k] ++ ikeys q). rewrite !nc_app, <- app_assoc. reflexivity.
+    + assert (NR : not_run c) by (unfold not_run; congruence).
+      destruct (pq_done_rpops (it :: q) c NR P0) as (A & B & C & D).
+      cbn [C17_Typeahead.process_q] in A, B, C, D. rewrite PH in A, B, C, D.
+      split; [intros X; exfalso; exact (D X)|]. split; [exact C|]. rewrite A, B. reflexivity.
+    + cbn [fst snd]. auto.
+Qed.
+
+Definition Kq (s : sys) : Prop :=
+  KBr (co s) /\ pb (co s) = [] /\ (at_ s <> Detached -> store s = []) /\ (at_ s = Detached -> queue s = []) /\
+  nc (rpops (co s)) ++ nc (ikeys (store s)) ++ nc (ikeys (queue s)) = nc (decoded s).
+
+Lemma Kq_pk (s : sys) : at_ s <> Detached -> Kq s -> Kq (pk s).
+Proof.
+  intros A (K & P0 & S0 & Q0 & C0). unfold C17_Typeahead.pk.
+  destruct (pq_C (queue s) (co s) P0 K) as (A1 & A2 & A3).
+  unfold Kq, with_co, with_queue; cbn [co at_ store queue decoded].
+  split; [exact A1|]. split; [exact A2|]. split; [exact S0|]. split; [intros X; contradiction|].
+  rewrite (S0 A) in *. cbn [ikeys nc filter app] in *. rewrite A3. exact C0.
+Qed.
+
+Lemma Kq_feed_keys p ks (s : sys) : at_ s <> Detached -> Kq s -> Kq (feed_keys p ks s).
+Proof.
+  intros A (K1 & K2 & K3 & K5 & K4). unfold C17_Typeahead.feed_keys. apply Kq_pk; [exact A|].
+  unfold Kq; cbn [co at_ store queue decoded].
+  split; [exact K1|]. split; [exact K2|]. split; [exact K3|]. split; [intros X; contradiction|].
+  rewrite ikeys_app, ikeys_map, !nc_app, !app_assoc. rewrite <- K4, !app_assoc. reflexivity.
+Qed.
+
+Lemma Kq_finish r (s : sys) : Kq s -> Kq (finish r s).
+Proof.
+  intros (K & P0 & S0 & Q0 & C0). unfold Kq, C17_Typeahead.finish; cbn [co at_ store queue decoded].
+  split; [exact K|]. split; [exact P0|]. split; [intros X; congruence|]. split; [reflexivity|].
+  rewrite ikeys_app, nc_app, nc_ikeys_filter. cbn [ikeys nc filter]. rewrite app_nil_r. exact C0.
+Qed.
+
+Lemma Kq_do_read n (s : sys) : at_ s <> Detached -> Kq s -> Kq (do_read n s).
+Proof.
+  intros A K. unfold C17_Typeahead.do_read. cbv zeta. destruct (pipe s).
+  - pose proof (Kq_pk s A K) as K'. destruct (wclosed s); [|exact K'].
+    destruct (cph (co (pk s))) eqn:PC; [|exact K'|exact K'].
+    destruct K' as (K1 & K2 & K3 & K5 & K4). unfold Kq, with_co; cbn [co at_ store queue decoded cph pb rpops set_cph].
+    split; [intros X; cbn [cph set_cph] in X; discriminate|]. auto.
+  - apply Kq_feed_keys; [exact A|].
+    destruct K as (K1 & K2 & K3 & K5 & K4). unfold Kq; cbn [co at_ store queue decoded]. auto.
+Qed.
+
+Lemma Kq_step (s : sys) l : Kq s -> Kq (step s l).
+Proof.
+  intros K. pose proof K as (K1 & K2 & K3 & K5 & K4).
+  unfold C17_Typeahead.step.
+  destruct (cph (co s)) eqn:PH; destruct l; try exact K.
+  all: try (destruct (wclosed s); exact K).
+  all: try (destruct (at_ s) eqn:A; try exact K;
+            try (apply Kq_do_read; [congruence|exact K]);
+            try (destruct (wcpr (co s)); [exact K|apply Kq_do_read; [congruence|exact K]]);
+            try (apply Kq_feed_keys; [congruence|exact K]);
+            try (destruct (wcpr (co s)); [apply Kq_finish; exact K|exact K]);
+            try (apply Kq_finish; exact K); fail).
+  (* LFlushKeys x2, LStart x2, LExit *)
+  all: try (destruct (at_ s) eqn:A; [exact K| |]; (destruct (kbuf (co s)); [exact K|]);
+            (apply Kq_pk; [cbn [at_ with_queue]; congruence|]);
+            unfold Kq, with_queue; cbn [co at_ store queue decoded]; rewrite A;
+            (split; [exact K1|]); (split; [exact K2|]); (split; [exact K3|]); (split; [intros X; congruence|]);
+            rewrite ikeys_app; cbn [ikeys]; rewrite app_nil_r; exact K4).
+  all: try (destruct (at_ s) eqn:A; [|exact K|exact K];
+            apply Kq_pk; [cbn [at_]; congruence|];
+            unfold Kq; cbn [co at_ store queue decoded rpops pb];
+            (split; [intros _; left; reflexivity|]); (split; [exact K2|]); (split; [reflexivity|]); (split; [intros X; congruence|]);
+            rewrite (K5 eq_refl) in K4; cbn [ikeys nc filter app] in *; rewrite app_nil_r in K4; exact K4).
+  - destruct (at_ s) eqn:A; [exact K| |exact K].
+    destruct (rcpr s && negb (Nat.eqb (wcpr (co s)) 0)); [|apply Kq_finish; exact K].
+    unfold Kq; cbn [co at_ store queue decoded].
+    split; [exact K1|]. split; [exact K2|]. split; [intros _; apply K3; congruence|]. split; [intros X; congruence|exact K4].
+Qed.
+
+Lemma Kq_run ls : forall s : sys, Kq s -> Kq (run ls s).
+Proof.
+  induction ls as [|l ls IH]; intros s K; [exact K|]. cbn [C17_Typeahead.run fold_left].
+  apply IH. apply Kq_step. exact K.
+Qed.
+
+Lemma queue_conservation ls e p r :
+  let s := run ls (@init E bid res PS e p r) in
+  nc (rpops (co s)) ++ nc (ikeys (store s)) ++ nc (ikeys (queue s)) = nc (decoded s) /\ pb (co s) = [].
+Proof.
+  intros s. destruct (Kq_run ls (@init E bid res PS e p r)) as (_ & P & _ & _ & C); [|auto].
+  unfold Kq, init, init_core; cbn. split; [intros _; left; reflexivity|]. split; [reflexivity|].
+  split; [intros X; congruence|]. split; reflexivity.
+Qed.
+
+(* ---------------------------------------------------------------------- *)
 (* scripts *)
 
 Definition runline (c : core) (l : list kp) : core := fold_left (fun c k => deliver_d (IKey k) c) l c.
